@@ -519,6 +519,22 @@ func lineReachesDispatcher(c *Check) int {
 					skip = ret
 				}
 			}
+			// ... and hands it on at most once (a line submitted twice is
+			// counted, and possibly recorded, twice)
+			var twice ssa.Instruction
+			for _, s := range sites {
+				if inLoop(s) {
+					twice = s
+				}
+				if again := searchAvoiding(fn, s, isSite, nil); again != nil {
+					twice = again
+				}
+			}
+			if twice == nil {
+				c.OK("line-dispatched-once", "a line given to "+fn.Name()+" reaches "+target.Name()+" at most once", p.Pos(fn.Pos()), "one call, not in a loop, not repeated on any path")
+			} else {
+				c.Bad("line-dispatched-once", "a line given to "+fn.Name()+" reaches "+target.Name()+" at most once", p.InstrPos(twice), "the same line can be handed on a second time (retry or loop): its counters move twice and its event or login can be produced twice")
+			}
 			construct := "every line given to " + fn.Name() + " reaches " + target.Name()
 			if skip == nil {
 				c.OK("line-reaches-dispatcher", construct, p.Pos(fn.Pos()), "no return without error avoids the call")
